@@ -184,3 +184,9 @@ QEMU_BIT_HELPERS = {
     "sextract64": ("int64_t", ["uint64_t", "int32_t", "int32_t"]),
     "deposit32": ("uint32_t", ["uint32_t", "int32_t", "int32_t", "uint32_t"]), "deposit64": ("uint64_t", ["uint64_t", "int32_t", "int32_t", "uint64_t"]),
 }
+
+
+# C11 6.4.1 keywords (plus __func__, 6.4.2.2)
+C11_KEYWORDS = set("""auto break case char const continue default do double else enum extern float for goto if inline int long
+register restrict return short signed sizeof static struct switch typedef union unsigned void volatile while _Alignas _Alignof
+_Atomic _Bool _Complex _Generic _Imaginary _Noreturn _Static_assert _Thread_local __func__""".split())
